@@ -996,9 +996,10 @@ Section U8.
     (z = z0 \/ exists ix, In ix l /\ z = (snd ix - 1, wrap16 (fst ix))).
   Proof.
     induction l as [|[i x] l IH]; intros z0 Hl Hz; simpl.
-    - repeat split; auto; try lia. intros ? [].
+    - split; [lia|]. split; [intros ? []|auto].
     - inversion Hl as [|? ? Hx Hl']; subst. cbn [snd] in Hx.
-      unfold ulstep at 2. cbn [fst snd]. destruct (Z.gtb_spec x (fst z0)) as [Hgt|Hle].
+      assert (Estep : ulstep z0 (i, x) = if x >? fst z0 then (sub_epi16 x 1, wrap16 i) else z0) by reflexivity.
+      rewrite Estep. clear Estep. destruct (Z.gtb_spec x (fst z0)) as [Hgt|Hle].
       + rewrite sub_epi16_small by exact Hx.
         destruct (IH (x - 1, wrap16 i) Hl') as (H1 & H2 & H3); [cbn [fst]; lia|].
         cbn [fst] in *. repeat split; try lia.
@@ -1035,7 +1036,7 @@ Section U8.
       rewrite E. cbn [snd]. exists x0. split; auto.
       intros i w Hw. apply Z.leb_le.
       assert (Hw1 : w <= fst z + 1) by (apply (Hub (i, w)); apply in_lane_enumerate; auto).
-      rewrite E in Hw1. cbn [fst] in Hw1.
+      rewrite E in Hw1. cbn [fst snd] in Hw1.
       assert (0 <= x0 <= 255).
       { unfold u8_matrix in Hu8. rewrite Forall_forall in Hu8. apply Hu8. apply in_cells_get. eauto. }
       lia.
@@ -1046,7 +1047,7 @@ Section U8.
         assert (i < length m)%nat by (apply nth_error_Some; congruence). lia.
       + intros i' w Hw. apply Z.leb_le.
         assert (Hw1 : w <= fst z + 1) by (apply (Hub (i', w)); apply in_lane_enumerate; auto).
-        rewrite E in Hw1. cbn [fst] in Hw1. lia.
+        rewrite E in Hw1. cbn [fst snd] in Hw1. lia.
   Qed.
 
   Lemma u8_keys_ok (m : zmatrix) : forall x col,
@@ -1095,13 +1096,13 @@ Section U8.
         set (b := fold_left (pick_ge Z.leb) rest' k0) in *.
       + apply (winners_argmax Z.leb zgood zle_preorder 32%nat m x b); auto using zall_good.
         * rewrite Er. rewrite Forall_forall in Hhold. apply Hhold. left; auto.
-        * intros j p v Hp Hv. specialize (Hin j p v Hp Hv). simpl in Hin. destruct Hin as [<-|Hin].
-          -- exact Hb0.
+        * intros j p v Hp Hv. specialize (Hin j p v Hp Hv). simpl in Hin. destruct Hin as [Ek|Hin].
+          -- rewrite Ek in Hb0. exact Hb0.
           -- apply (Hub _ Hin).
       + apply (winners_argmax Z.leb zgood zle_preorder 32%nat m x b); auto using zall_good.
         * rewrite Forall_forall in Hhold. apply Hhold. right; auto.
-        * intros j p v Hp Hv. specialize (Hin j p v Hp Hv). simpl in Hin. destruct Hin as [<-|Hin].
-          -- exact Hb0.
+        * intros j p v Hp Hv. specialize (Hin j p v Hp Hv). simpl in Hin. destruct Hin as [Ek|Hin].
+          -- rewrite Ek in Hb0. exact Hb0.
           -- apply (Hub _ Hin).
   Qed.
 
